@@ -68,7 +68,7 @@ package stream
 //@ ensures.absorbclean[C14] meta ==> unchanged(s.dirtyOffsets) && s.anyDirtyOffset == old(s.anyDirtyOffset)
 //@ ensures.deliver[C03] !meta ==> calls(models.Consumer.ConsumeEvent) == 1 && arg(models.Consumer.ConsumeEvent, 0, recv) == old(s.consumer) && ctx.Event == payload
 //@ ensures.ack[C01] !meta ==> isclosure(ctx.Ack, "stream.(*stream).waitAndForward$1") && captured(ctx.Ack, "stream.(*stream).waitAndForward$1", "s") == s && captured(ctx.Ack, "stream.(*stream).waitAndForward$1", "vbID") == vbID && captured(ctx.Ack, "stream.(*stream).waitAndForward$1", "offset") == offset
-//@ ensures.commit[C05] !meta ==> isbound(ctx.Commit, "stream.Checkpoint.Save") && boundrecv(ctx.Commit, "stream.Checkpoint.Save") == old(s.checkpoint)
+//@ ensures.commit[C05,C01] !meta ==> isbound(ctx.Commit, "stream.Checkpoint.Save") && boundrecv(ctx.Commit, "stream.Checkpoint.Save") == old(s.checkpoint)
 //@ ensures.nosettle[C01] !meta ==> dcalls("stream.(*stream).setOffset") == 0
 //@ modifies content(s.offsets), content(s.dirtyOffsets), s.anyDirtyOffset, s.metric.DcpLatency, s.metric.ProcessLatency, calls(models.Consumer.TrackOffset), calls(models.Consumer.ConsumeEvent), calls("stream.(*stream).setOffset")
 
@@ -87,6 +87,14 @@ package stream
 //@ ensures.cleared[C05] s.anyDirtyOffset == false && fresh(s.dirtyOffsets) && forall k uint16 :: !has(s.dirtyOffsets, k)
 //@ modifies s.anyDirtyOffset, s.dirtyOffsets
 
+//@ func (*stream).GetObservers
+//@ params s
+//@ props C16
+//@ requires s != nil
+//@ ensures.field[C16] result == s.observers
+//@ nonblocking
+//@ modifies nothing
+
 //@ func (*stream).GetOffsets
 //@ params s
 //@ props C01 C05 C16
@@ -96,7 +104,7 @@ package stream
 
 //@ func (*stream).listen
 //@ params s args
-//@ props C01 C03 C05
+//@ props C01 C03 C05 C06
 //@ requires s != nil && s.vbIDRange != nil && s.offsets != nil && s.dirtyOffsets != nil && s.consumer != nil && s.metric != nil && s.checkpoint != nil
 //@ let ev = args.Event
 //@ requires typeis(ev, models.InternalDcpMutation) ==> as(ev, models.InternalDcpMutation).Offset != nil && as(ev, models.InternalDcpMutation).DcpMutation != nil
@@ -112,13 +120,13 @@ package stream
 //@ ensures.DcpMutation[C03,C01] typeis(ev, models.InternalDcpMutation) ==> dcalls("stream.(*stream).waitAndForward") == 1 && dcalls("stream.(*stream).setOffset") == 0 && typeis(arg("stream.(*stream).waitAndForward", 0, payload), models.InternalDcpMutation) && as(arg("stream.(*stream).waitAndForward", 0, payload), models.InternalDcpMutation) == as(ev, models.InternalDcpMutation) && arg("stream.(*stream).waitAndForward", 0, offset) == as(ev, models.InternalDcpMutation).Offset && arg("stream.(*stream).waitAndForward", 0, vbID) == as(ev, models.InternalDcpMutation).DcpMutation.VbID && arg("stream.(*stream).waitAndForward", 0, eventTime) == as(ev, models.InternalDcpMutation).EventTime && arg("stream.(*stream).waitAndForward", 0, s) == s
 //@ ensures.DcpDeletion[C03,C01] typeis(ev, models.InternalDcpDeletion) ==> dcalls("stream.(*stream).waitAndForward") == 1 && dcalls("stream.(*stream).setOffset") == 0 && typeis(arg("stream.(*stream).waitAndForward", 0, payload), models.InternalDcpDeletion) && as(arg("stream.(*stream).waitAndForward", 0, payload), models.InternalDcpDeletion) == as(ev, models.InternalDcpDeletion) && arg("stream.(*stream).waitAndForward", 0, offset) == as(ev, models.InternalDcpDeletion).Offset && arg("stream.(*stream).waitAndForward", 0, vbID) == as(ev, models.InternalDcpDeletion).DcpDeletion.VbID && arg("stream.(*stream).waitAndForward", 0, eventTime) == as(ev, models.InternalDcpDeletion).EventTime && arg("stream.(*stream).waitAndForward", 0, s) == s
 //@ ensures.DcpExpiration[C03,C01] typeis(ev, models.InternalDcpExpiration) ==> dcalls("stream.(*stream).waitAndForward") == 1 && dcalls("stream.(*stream).setOffset") == 0 && typeis(arg("stream.(*stream).waitAndForward", 0, payload), models.InternalDcpExpiration) && as(arg("stream.(*stream).waitAndForward", 0, payload), models.InternalDcpExpiration) == as(ev, models.InternalDcpExpiration) && arg("stream.(*stream).waitAndForward", 0, offset) == as(ev, models.InternalDcpExpiration).Offset && arg("stream.(*stream).waitAndForward", 0, vbID) == as(ev, models.InternalDcpExpiration).DcpExpiration.VbID && arg("stream.(*stream).waitAndForward", 0, eventTime) == as(ev, models.InternalDcpExpiration).EventTime && arg("stream.(*stream).waitAndForward", 0, s) == s
-//@ ensures.DcpSeqNoAdvanced[C01,C05] typeis(ev, models.InternalDcpSeqNoAdvance) ==> dcalls("stream.(*stream).waitAndForward") == 0 && dcalls("stream.(*stream).setOffset") == 1 && arg("stream.(*stream).setOffset", 0, s) == s && arg("stream.(*stream).setOffset", 0, vbID) == as(ev, models.InternalDcpSeqNoAdvance).DcpSeqNoAdvanced.VbID && arg("stream.(*stream).setOffset", 0, offset) == as(ev, models.InternalDcpSeqNoAdvance).Offset && arg("stream.(*stream).setOffset", 0, dirty) == true
-//@ ensures.DcpCollectionCreation[C01,C05] typeis(ev, models.InternalDcpCollectionCreation) ==> dcalls("stream.(*stream).waitAndForward") == 0 && dcalls("stream.(*stream).setOffset") == 1 && arg("stream.(*stream).setOffset", 0, s) == s && arg("stream.(*stream).setOffset", 0, vbID) == as(ev, models.InternalDcpCollectionCreation).DcpCollectionCreation.VbID && arg("stream.(*stream).setOffset", 0, offset) == as(ev, models.InternalDcpCollectionCreation).Offset && arg("stream.(*stream).setOffset", 0, dirty) == true
-//@ ensures.DcpCollectionDeletion[C01,C05] typeis(ev, models.InternalDcpCollectionDeletion) ==> dcalls("stream.(*stream).waitAndForward") == 0 && dcalls("stream.(*stream).setOffset") == 1 && arg("stream.(*stream).setOffset", 0, s) == s && arg("stream.(*stream).setOffset", 0, vbID) == as(ev, models.InternalDcpCollectionDeletion).DcpCollectionDeletion.VbID && arg("stream.(*stream).setOffset", 0, offset) == as(ev, models.InternalDcpCollectionDeletion).Offset && arg("stream.(*stream).setOffset", 0, dirty) == true
-//@ ensures.DcpCollectionFlush[C01,C05] typeis(ev, models.InternalDcpCollectionFlush) ==> dcalls("stream.(*stream).waitAndForward") == 0 && dcalls("stream.(*stream).setOffset") == 1 && arg("stream.(*stream).setOffset", 0, s) == s && arg("stream.(*stream).setOffset", 0, vbID) == as(ev, models.InternalDcpCollectionFlush).DcpCollectionFlush.VbID && arg("stream.(*stream).setOffset", 0, offset) == as(ev, models.InternalDcpCollectionFlush).Offset && arg("stream.(*stream).setOffset", 0, dirty) == true
-//@ ensures.DcpScopeCreation[C01,C05] typeis(ev, models.InternalDcpScopeCreation) ==> dcalls("stream.(*stream).waitAndForward") == 0 && dcalls("stream.(*stream).setOffset") == 1 && arg("stream.(*stream).setOffset", 0, s) == s && arg("stream.(*stream).setOffset", 0, vbID) == as(ev, models.InternalDcpScopeCreation).DcpScopeCreation.VbID && arg("stream.(*stream).setOffset", 0, offset) == as(ev, models.InternalDcpScopeCreation).Offset && arg("stream.(*stream).setOffset", 0, dirty) == true
-//@ ensures.DcpScopeDeletion[C01,C05] typeis(ev, models.InternalDcpScopeDeletion) ==> dcalls("stream.(*stream).waitAndForward") == 0 && dcalls("stream.(*stream).setOffset") == 1 && arg("stream.(*stream).setOffset", 0, s) == s && arg("stream.(*stream).setOffset", 0, vbID) == as(ev, models.InternalDcpScopeDeletion).DcpScopeDeletion.VbID && arg("stream.(*stream).setOffset", 0, offset) == as(ev, models.InternalDcpScopeDeletion).Offset && arg("stream.(*stream).setOffset", 0, dirty) == true
-//@ ensures.DcpCollectionModification[C01,C05] typeis(ev, models.InternalDcpCollectionModification) ==> dcalls("stream.(*stream).waitAndForward") == 0 && dcalls("stream.(*stream).setOffset") == 1 && arg("stream.(*stream).setOffset", 0, s) == s && arg("stream.(*stream).setOffset", 0, vbID) == as(ev, models.InternalDcpCollectionModification).DcpCollectionModification.VbID && arg("stream.(*stream).setOffset", 0, offset) == as(ev, models.InternalDcpCollectionModification).Offset && arg("stream.(*stream).setOffset", 0, dirty) == true
+//@ ensures.DcpSeqNoAdvanced[C01,C05,C06] typeis(ev, models.InternalDcpSeqNoAdvance) ==> dcalls("stream.(*stream).waitAndForward") == 0 && dcalls("stream.(*stream).setOffset") == 1 && arg("stream.(*stream).setOffset", 0, s) == s && arg("stream.(*stream).setOffset", 0, vbID) == as(ev, models.InternalDcpSeqNoAdvance).DcpSeqNoAdvanced.VbID && arg("stream.(*stream).setOffset", 0, offset) == as(ev, models.InternalDcpSeqNoAdvance).Offset && arg("stream.(*stream).setOffset", 0, dirty) == true
+//@ ensures.DcpCollectionCreation[C01,C05,C06] typeis(ev, models.InternalDcpCollectionCreation) ==> dcalls("stream.(*stream).waitAndForward") == 0 && dcalls("stream.(*stream).setOffset") == 1 && arg("stream.(*stream).setOffset", 0, s) == s && arg("stream.(*stream).setOffset", 0, vbID) == as(ev, models.InternalDcpCollectionCreation).DcpCollectionCreation.VbID && arg("stream.(*stream).setOffset", 0, offset) == as(ev, models.InternalDcpCollectionCreation).Offset && arg("stream.(*stream).setOffset", 0, dirty) == true
+//@ ensures.DcpCollectionDeletion[C01,C05,C06] typeis(ev, models.InternalDcpCollectionDeletion) ==> dcalls("stream.(*stream).waitAndForward") == 0 && dcalls("stream.(*stream).setOffset") == 1 && arg("stream.(*stream).setOffset", 0, s) == s && arg("stream.(*stream).setOffset", 0, vbID) == as(ev, models.InternalDcpCollectionDeletion).DcpCollectionDeletion.VbID && arg("stream.(*stream).setOffset", 0, offset) == as(ev, models.InternalDcpCollectionDeletion).Offset && arg("stream.(*stream).setOffset", 0, dirty) == true
+//@ ensures.DcpCollectionFlush[C01,C05,C06] typeis(ev, models.InternalDcpCollectionFlush) ==> dcalls("stream.(*stream).waitAndForward") == 0 && dcalls("stream.(*stream).setOffset") == 1 && arg("stream.(*stream).setOffset", 0, s) == s && arg("stream.(*stream).setOffset", 0, vbID) == as(ev, models.InternalDcpCollectionFlush).DcpCollectionFlush.VbID && arg("stream.(*stream).setOffset", 0, offset) == as(ev, models.InternalDcpCollectionFlush).Offset && arg("stream.(*stream).setOffset", 0, dirty) == true
+//@ ensures.DcpScopeCreation[C01,C05,C06] typeis(ev, models.InternalDcpScopeCreation) ==> dcalls("stream.(*stream).waitAndForward") == 0 && dcalls("stream.(*stream).setOffset") == 1 && arg("stream.(*stream).setOffset", 0, s) == s && arg("stream.(*stream).setOffset", 0, vbID) == as(ev, models.InternalDcpScopeCreation).DcpScopeCreation.VbID && arg("stream.(*stream).setOffset", 0, offset) == as(ev, models.InternalDcpScopeCreation).Offset && arg("stream.(*stream).setOffset", 0, dirty) == true
+//@ ensures.DcpScopeDeletion[C01,C05,C06] typeis(ev, models.InternalDcpScopeDeletion) ==> dcalls("stream.(*stream).waitAndForward") == 0 && dcalls("stream.(*stream).setOffset") == 1 && arg("stream.(*stream).setOffset", 0, s) == s && arg("stream.(*stream).setOffset", 0, vbID) == as(ev, models.InternalDcpScopeDeletion).DcpScopeDeletion.VbID && arg("stream.(*stream).setOffset", 0, offset) == as(ev, models.InternalDcpScopeDeletion).Offset && arg("stream.(*stream).setOffset", 0, dirty) == true
+//@ ensures.DcpCollectionModification[C01,C05,C06] typeis(ev, models.InternalDcpCollectionModification) ==> dcalls("stream.(*stream).waitAndForward") == 0 && dcalls("stream.(*stream).setOffset") == 1 && arg("stream.(*stream).setOffset", 0, s) == s && arg("stream.(*stream).setOffset", 0, vbID) == as(ev, models.InternalDcpCollectionModification).DcpCollectionModification.VbID && arg("stream.(*stream).setOffset", 0, offset) == as(ev, models.InternalDcpCollectionModification).Offset && arg("stream.(*stream).setOffset", 0, dirty) == true
 //@ ensures.other[C03] !typeis(ev, models.InternalDcpMutation) && !typeis(ev, models.InternalDcpDeletion) && !typeis(ev, models.InternalDcpExpiration) && !typeis(ev, models.InternalDcpSeqNoAdvance) && !typeis(ev, models.InternalDcpCollectionCreation) && !typeis(ev, models.InternalDcpCollectionDeletion) && !typeis(ev, models.InternalDcpCollectionFlush) && !typeis(ev, models.InternalDcpScopeCreation) && !typeis(ev, models.InternalDcpScopeDeletion) && !typeis(ev, models.InternalDcpCollectionModification) ==> dcalls("stream.(*stream).waitAndForward") == 0 && dcalls("stream.(*stream).setOffset") == 0 && unchanged(s.offsets) && unchanged(s.dirtyOffsets) && s.anyDirtyOffset == old(s.anyDirtyOffset)
 //@ modifies content(s.offsets), content(s.dirtyOffsets), s.anyDirtyOffset, s.metric.DcpLatency, s.metric.ProcessLatency, calls(models.Consumer.TrackOffset), calls(models.Consumer.ConsumeEvent), calls("stream.(*stream).setOffset"), calls("stream.(*stream).waitAndForward")
 
@@ -303,7 +311,7 @@ package stream
 //@ func (*stream).openAllStreams$1
 //@ freevars s openWg
 //@ params innerVbId
-//@ props C15
+//@ props C15 C08
 //@ requires s != nil && s.offsets != nil && s.observers != nil && s.client != nil && openWg != nil
 //@ ensures.ok[C15] dcalls("stream.(*stream).openStream") == 1 && dret("stream.(*stream).openStream", 0, 0) == nil && darg("stream.(*stream).openStream", 0, vbID) == innerVbId
 //@ onpanic.failed[C15] dcalls("stream.(*stream).openStream") == 1 && dret("stream.(*stream).openStream", 0, 0) != nil
@@ -311,7 +319,7 @@ package stream
 
 //@ func (*stream).openAllStreams
 //@ params s vbIDs
-//@ props C15 C12
+//@ props C15 C12 C08
 //@ requires s != nil
 //@ loop 1
 //@   invariant.spawned 0 <= rangeindex + 1 && rangeindex + 1 <= len(vbIDs) && dcalls("go:stream.(*stream).openAllStreams$1") == rangeindex + 1
